@@ -209,6 +209,8 @@ def _display_props(ctx: Ctx, ci) -> Set[str]:
     bodies = {n: SUMMARIZER.summarize(m.node) for n, m in members.items()}
     seeds = {"_row_order_signed_indexes", "_column_order_signed_indexes", "_row_order_bogus_ids"}
     disp |= seeds & set(members)
+    # the public order METHODS hand out the same vectors
+    disp |= {n for c in ci.mro for n, m in c.members.items() if n in ("row_order", "column_order") and m.kind == "method"}
     while changed:
         changed = False
         for n, body in bodies.items():
